@@ -268,7 +268,11 @@ impl<'arena, 'input: 'arena> Lexer<'arena, 'input> {
             } else if c == b'\\' {
                 has_escape = true;
                 if buffer.is_empty() {
-                    buffer.reserve_exact(bytes.len());
+                    // Room for what was read so far and as much again; the buffer grows with
+                    // the literal. (Reserving the whole rest of the source for every literal
+                    // with an escape made memory quadratic in the size of the script, and the
+                    // arena never gives it back.)
+                    buffer.reserve_exact(2 * (pos - beg) + 16);
                     // SAFETY: beg..pos is valid UTF-8 because we only process valid string content
                     let string = unsafe { str::from_utf8_unchecked(&self.src[beg..pos]) };
                     buffer.push_str(string);
